@@ -1,8 +1,8 @@
 (* m_race.ml — mode race: the specification side of the free-running races.  By
    C02_conc_no_lost_wakeup / C03_conc_closed_iff_no_owner / C03_conc_upgrade_sound no round can lose a
-   wakeup, miss the end, or end under a live owner; the line mirrors harness/src/m_race.rs. *)
+   wakeup, miss the end, or end under a live owner, and by C04_lin_step / C04_seq_* no subscriber sees values out of order and no two equal conditional writers both store; the line mirrors harness/src/m_race.rs. *)
 open Util
 let run_line (line : string) =
   let rounds = (match List.find_opt (fun w -> starts_with "rounds=" w) (words line) with
       | Some w -> after "rounds=" w | None -> "1000") in
-  Printf.printf "rounds=%s ok:racewake=1 ok:raceended=1 ok:racenotearly=1 ok:racefinal=1\n" rounds
+  Printf.printf "rounds=%s ok:racewake=1 ok:raceended=1 ok:racenotearly=1 ok:racefinal=1 ok:raceorder=1\n" rounds
